@@ -1,9 +1,11 @@
 //! Correspondence harness: runs cases on the real saveoursecrets/sdk code and prints one
 //! canonical observation line per step.  Usage: harness <prop> <cases-file>
 mod alloc;
+mod c05;
 mod c06;
 mod c08;
 mod c14;
+mod sync;
 mod util;
 
 #[global_allocator]
@@ -19,6 +21,7 @@ fn main() {
     let out = std::io::stdout();
     let mut out = std::io::BufWriter::new(out.lock());
     match args[1].as_str() {
+        "c05" => c05::run(&text, &args[2], &mut out),
         "c06" | "c07" => c06::run(&text, &args[2], &mut out),
         "c08" => c08::run(&text, &mut out),
         "c14gen" => c14::gen(&text, &mut out),
